@@ -595,7 +595,12 @@ func (vfs *OrefaFS) OpenFile(name string, flag int, perm fs.FileMode) (avfs.File
 
 	if !childOk {
 		if !parentOk {
-			return (*OrefaFile)(nil), &fs.PathError{Op: op, Path: name, Err: vfs.err.NoSuchDir}
+			err := vfs.notFound(absPath)
+			if err == vfs.err.NoSuchFile {
+				err = vfs.err.NoSuchDir
+			}
+
+			return (*OrefaFile)(nil), &fs.PathError{Op: op, Path: name, Err: err}
 		}
 
 		if !parent.mode.IsDir() {
@@ -769,6 +774,11 @@ func (vfs *OrefaFS) RemoveAll(path string) error {
 	parent, parentOk := vfs.nodes[dirName]
 
 	if !childOk || !parentOk {
+		if err := vfs.notFoundLocked(absPath); err == vfs.err.NotADirectory && vfs.OSType() != avfs.OsWindows {
+			// a path below a regular file is an error, a missing path is not.
+			return &fs.PathError{Op: "unlinkat", Path: path, Err: err}
+		}
+
 		return nil
 	}
 
